@@ -216,7 +216,6 @@ def runLine (w : World) : List String → List String → String
       let o := match res with
         | .ok => "ok=" ++ digest (w' (plan env op).id)
         | .fail => "fail"
-        | .panic => "panic"
       runLine w' r (o :: acc)
 
 def handle (line : String) : String :=
